@@ -2342,3 +2342,303 @@ fn sum_axis_gaps(gap: f32, num_items: usize) -> f32 {
         gap * (num_items - 1) as f32
     }
 }
+
+/// Verification hooks (compiled only with `--cfg taffy_verif`): drive the crate-private per-line functions
+/// `resolve_flexible_lengths`, `distribute_remaining_free_space` and `calculate_layout_line` on synthetic item lists.
+/// The real `FlexItem`/`FlexLine`/`AlgoConstants` values are built from the main-axis inputs, the REAL private
+/// functions are called, and the main-axis results are copied out. Cross-axis slots are filled with poison
+/// values (they must not influence any main-axis result).
+#[cfg(taffy_verif)]
+pub mod verif_hooks {
+    use super::*;
+    use crate::style::Style;
+
+    /// Main-axis view of a `FlexItem`: exactly the fields the three functions read or write
+    #[derive(Clone, Copy, Debug, PartialEq)]
+    pub struct VItem {
+        /// `flex_basis`
+        pub flex_basis: f32,
+        /// `inner_flex_basis`
+        pub inner_flex_basis: f32,
+        /// `hypothetical_inner_size.main`
+        pub hypothetical_inner_main: f32,
+        /// `hypothetical_outer_size.main`
+        pub hypothetical_outer_main: f32,
+        /// `resolved_minimum_main_size`
+        pub resolved_minimum_main_size: f32,
+        /// `max_size.main`
+        pub max_main: Option<f32>,
+        /// `flex_grow`
+        pub flex_grow: f32,
+        /// `flex_shrink`
+        pub flex_shrink: f32,
+        /// `margin.main_start`
+        pub margin_start: f32,
+        /// `margin.main_end`
+        pub margin_end: f32,
+        /// `margin_is_auto.main_start`
+        pub margin_start_auto: bool,
+        /// `margin_is_auto.main_end`
+        pub margin_end_auto: bool,
+        /// `inset.main_start`
+        pub inset_start: Option<f32>,
+        /// `inset.main_end`
+        pub inset_end: Option<f32>,
+        /// `frozen`
+        pub frozen: bool,
+        /// `violation`
+        pub violation: f32,
+        /// `target_size.main`
+        pub target_main: f32,
+        /// `outer_target_size.main`
+        pub outer_target_main: f32,
+        /// `offset_main`
+        pub offset_main: f32,
+    }
+
+    /// value put into every cross-axis slot
+    const POISON: f32 = 12345.0;
+
+    fn main_size<T>(dir: FlexDirection, main: T, cross: T) -> Size<T> {
+        if dir.is_row() {
+            Size { width: main, height: cross }
+        } else {
+            Size { width: cross, height: main }
+        }
+    }
+    fn main_rect<T: Copy>(dir: FlexDirection, start: T, end: T, cross: T) -> Rect<T> {
+        if dir.is_row() {
+            Rect { left: start, right: end, top: cross, bottom: cross }
+        } else {
+            Rect { left: cross, right: cross, top: start, bottom: end }
+        }
+    }
+
+    fn mk_item(v: &VItem, dir: FlexDirection, index: usize) -> FlexItem {
+        FlexItem {
+            node: NodeId::from(index),
+            order: index as u32,
+            size: Size::NONE,
+            min_size: Size::NONE,
+            max_size: main_size(dir, v.max_main, Some(POISON)),
+            align_self: AlignSelf::FlexStart,
+            overflow: Point { x: Overflow::Visible, y: Overflow::Visible },
+            scrollbar_width: 0.0,
+            flex_shrink: v.flex_shrink,
+            flex_grow: v.flex_grow,
+            resolved_minimum_main_size: v.resolved_minimum_main_size,
+            inset: main_rect(dir, v.inset_start, v.inset_end, None),
+            margin: main_rect(dir, v.margin_start, v.margin_end, POISON),
+            margin_is_auto: main_rect(dir, v.margin_start_auto, v.margin_end_auto, true),
+            padding: Rect::zero(),
+            border: Rect::zero(),
+            flex_basis: v.flex_basis,
+            inner_flex_basis: v.inner_flex_basis,
+            violation: v.violation,
+            frozen: v.frozen,
+            content_flex_fraction: 0.0,
+            hypothetical_inner_size: main_size(dir, v.hypothetical_inner_main, POISON),
+            hypothetical_outer_size: main_size(dir, v.hypothetical_outer_main, POISON),
+            target_size: main_size(dir, v.target_main, POISON),
+            outer_target_size: main_size(dir, v.outer_target_main, POISON),
+            baseline: 0.0,
+            offset_main: v.offset_main,
+            offset_cross: POISON,
+        }
+    }
+
+    fn read_back(v: &mut VItem, item: &FlexItem, dir: FlexDirection) {
+        v.frozen = item.frozen;
+        v.violation = item.violation;
+        v.target_main = item.target_size.main(dir);
+        v.outer_target_main = item.outer_target_size.main(dir);
+        v.offset_main = item.offset_main;
+        v.margin_start = item.margin.main_start(dir);
+        v.margin_end = item.margin.main_end(dir);
+    }
+
+    fn mk_constants(
+        dir: FlexDirection,
+        node_inner_main: Option<f32>,
+        inner_container_main: f32,
+        gap_main: f32,
+        justify_content: Option<JustifyContent>,
+        content_box_inset_main_start: f32,
+    ) -> AlgoConstants {
+        AlgoConstants {
+            dir,
+            is_row: dir.is_row(),
+            is_column: dir.is_column(),
+            is_wrap: false,
+            is_wrap_reverse: false,
+            min_size: Size::NONE,
+            max_size: Size::NONE,
+            margin: Rect::zero(),
+            border: Rect::zero(),
+            content_box_inset: main_rect(dir, content_box_inset_main_start, 0.0, POISON),
+            scrollbar_gutter: Point { x: 0.0, y: 0.0 },
+            gap: main_size(dir, gap_main, POISON),
+            align_items: AlignItems::FlexStart,
+            align_content: AlignContent::FlexStart,
+            justify_content,
+            node_outer_size: Size::NONE,
+            node_inner_size: main_size(dir, node_inner_main, Some(POISON)),
+            container_size: main_size(dir, inner_container_main, POISON),
+            inner_container_size: main_size(dir, inner_container_main, POISON),
+        }
+    }
+
+    /// Runs the real `resolve_flexible_lengths` on one line made of `items`
+    pub fn resolve_flexible_lengths(items: &mut [VItem], dir: FlexDirection, node_inner_main: Option<f32>, gap_main: f32) {
+        let constants = mk_constants(dir, node_inner_main, node_inner_main.unwrap_or(0.0), gap_main, None, 0.0);
+        let mut flex_items: Vec<FlexItem> = items.iter().enumerate().map(|(i, v)| mk_item(v, dir, i)).collect();
+        {
+            let mut line = FlexLine { items: &mut flex_items[..], cross_size: POISON, offset_cross: POISON };
+            super::resolve_flexible_lengths(&mut line, &constants);
+        }
+        for (v, item) in items.iter_mut().zip(flex_items.iter()) {
+            read_back(v, item, dir);
+        }
+    }
+
+    /// Runs the real `distribute_remaining_free_space` on one line made of `items`
+    pub fn distribute_remaining_free_space(
+        items: &mut [VItem],
+        dir: FlexDirection,
+        inner_container_main: f32,
+        gap_main: f32,
+        justify_content: Option<JustifyContent>,
+    ) {
+        let constants =
+            mk_constants(dir, Some(inner_container_main), inner_container_main, gap_main, justify_content, 0.0);
+        let mut flex_items: Vec<FlexItem> = items.iter().enumerate().map(|(i, v)| mk_item(v, dir, i)).collect();
+        {
+            let line = FlexLine { items: &mut flex_items[..], cross_size: POISON, offset_cross: POISON };
+            let mut lines = [line];
+            super::distribute_remaining_free_space(&mut lines, &constants);
+        }
+        for (v, item) in items.iter_mut().zip(flex_items.iter()) {
+            read_back(v, item, dir);
+        }
+    }
+
+    /// A tree whose children answer every layout request with a fixed size and record the layout they are given
+    struct VTree {
+        /// style handed out for every node
+        style: Style,
+        /// the size child `i` reports
+        sizes: Vec<Size<f32>>,
+        /// the layout child `i` was given
+        layouts: Vec<Option<Layout>>,
+    }
+    impl crate::tree::TraversePartialTree for VTree {
+        type ChildIter<'a> = core::iter::Empty<NodeId>;
+        fn child_ids(&self, _parent_node_id: NodeId) -> Self::ChildIter<'_> {
+            core::iter::empty()
+        }
+        fn child_count(&self, _parent_node_id: NodeId) -> usize {
+            0
+        }
+        fn get_child_id(&self, _parent_node_id: NodeId, _child_index: usize) -> NodeId {
+            unreachable!()
+        }
+    }
+    impl crate::tree::LayoutPartialTree for VTree {
+        type CoreContainerStyle<'a>
+            = &'a Style
+        where
+            Self: 'a;
+        fn get_core_container_style(&self, _node_id: NodeId) -> Self::CoreContainerStyle<'_> {
+            &self.style
+        }
+        fn set_unrounded_layout(&mut self, node_id: NodeId, layout: &Layout) {
+            self.layouts[usize::from(node_id)] = Some(*layout);
+        }
+        fn compute_child_layout(&mut self, node_id: NodeId, _inputs: LayoutInput) -> LayoutOutput {
+            LayoutOutput::from_outer_size(self.sizes[usize::from(node_id)])
+        }
+    }
+    impl LayoutFlexboxContainer for VTree {
+        type FlexboxContainerStyle<'a>
+            = &'a Style
+        where
+            Self: 'a;
+        type FlexboxItemStyle<'a>
+            = &'a Style
+        where
+            Self: 'a;
+        fn get_flexbox_container_style(&self, _node_id: NodeId) -> Self::FlexboxContainerStyle<'_> {
+            &self.style
+        }
+        fn get_flexbox_child_style(&self, _child_node_id: NodeId) -> Self::FlexboxItemStyle<'_> {
+            &self.style
+        }
+    }
+
+    /// Runs the real `calculate_layout_line` (hence `calculate_flex_item`) on one line made of `items`, where child `i`
+    /// reports the main size `sizes_main[i]`. Returns the main-axis component of the location each child was given.
+    pub fn calculate_layout_line(
+        items: &mut [VItem],
+        sizes_main: &[f32],
+        dir: FlexDirection,
+        content_box_inset_main_start: f32,
+    ) -> Vec<f32> {
+        let constants = mk_constants(dir, None, 0.0, 0.0, None, content_box_inset_main_start);
+        let mut flex_items: Vec<FlexItem> = items.iter().enumerate().map(|(i, v)| mk_item(v, dir, i)).collect();
+        let mut tree = VTree {
+            style: Style::DEFAULT,
+            sizes: sizes_main.iter().map(|s| main_size(dir, *s, POISON)).collect(),
+            layouts: items.iter().map(|_| None).collect(),
+        };
+        let mut total_offset_cross = 0.0;
+        #[cfg(feature = "content_size")]
+        let mut content_size = Size::ZERO;
+        {
+            let mut line = FlexLine { items: &mut flex_items[..], cross_size: POISON, offset_cross: POISON };
+            super::calculate_layout_line(
+                &mut tree,
+                &mut line,
+                &mut total_offset_cross,
+                #[cfg(feature = "content_size")]
+                &mut content_size,
+                constants.container_size,
+                constants.node_inner_size,
+                constants.content_box_inset,
+                dir,
+            );
+        }
+        tree.layouts
+            .iter()
+            .map(|l| {
+                let l = l.expect("every item of the line is laid out");
+                if dir.is_row() {
+                    l.location.x
+                } else {
+                    l.location.y
+                }
+            })
+            .collect()
+    }
+
+    /// The real `compute_alignment_offset`
+    pub fn compute_alignment_offset(
+        free_space: f32,
+        num_items: usize,
+        gap: f32,
+        alignment_mode: AlignContent,
+        layout_is_flex_reversed: bool,
+        is_first: bool,
+    ) -> f32 {
+        super::compute_alignment_offset(free_space, num_items, gap, alignment_mode, layout_is_flex_reversed, is_first)
+    }
+
+    /// The real `apply_alignment_fallback`
+    pub fn apply_alignment_fallback(
+        free_space: f32,
+        num_items: usize,
+        alignment_mode: AlignContent,
+        is_safe: bool,
+    ) -> AlignContent {
+        super::apply_alignment_fallback(free_space, num_items, alignment_mode, is_safe)
+    }
+}
